@@ -10,7 +10,7 @@ def check(pid, text, note, technique, ref):
     CHECKS[pid] = dict(text=text, note=note, technique=technique, ref=ref)
 
 check("C01",
-      "Generated task programs (shape-first: chain/tree/comb/diamond/re-entry comb/staggered/free-form; nested tuple/list/dict yields, DAG sharing, synchronous re-entry, try/except, contexts, failing leaves) are run on both builds under generated get_priority tables and every calling convention; root outcome and every task's transcript must equal an independent sequential reference interpreter, and be identical across conventions and under the reversed priority table. Search, not proof: evidence reports cases, distinct non-trivial cases and class distribution.",
+      "Generated task programs (shape-first: chain/tree/comb/diamond/re-entry comb/staggered/free-form; nested tuple/list/dict yields, DAG sharing, the same object yielded again, synchronous re-entry incl. direct item.value() calls, try/except, contexts, failing leaves) are run on both builds under generated get_priority tables and every calling convention; root outcome and every task's transcript must equal an independent sequential reference interpreter, and be identical across conventions and under the reversed priority table. Search, not proof: evidence reports cases, distinct non-trivial cases and class distribution.",
       "Trusted: the 170-line reference interpreter (harness/e1/ref.py), the harness batch kinds (written as the README prescribes), Hypothesis. Flush orders are steered via get_priority, a superset of what set-iteration tie-breaks can produce between batches of different kinds.",
       "property-based differential testing against a sequential reference interpreter + metamorphic relations (calling convention, reversed priorities), Hypothesis-generated program ASTs, structural shrinking",
       "DESIGN.md 5/C01")
@@ -26,13 +26,13 @@ check("C04",
       "property-based testing: invariant checked at every flush event + differential against a round-based reference scheduler",
       "DESIGN.md 5/C04")
 check("C05",
-      "Generated programs over 2-3 batch kinds with generated get_priority tables (overrides, ties, default), flush bodies that succeed / set errors / skip items / raise after a prefix / whose public flush() raises, with and without nested synchronous calls. History invariants over before/body/after events: each batch at most once, never empty or already flushed, nothing flushed once the innermost awaited computation is complete, events exactly before,body,after (after also on failure); yield-only: flushed priority = max over the harness-computed candidate set; every item announced once inside its batch's window with the outcome its flush set; waiting tasks receive exactly that (reference interpreter fed with the flush log).",
+      "Generated programs over 2-3 batch kinds with generated get_priority tables (overrides, ties, default), flush bodies that succeed / set errors / skip items / raise after a prefix / whose public flush() raises / that call synchronously into asynq, clients that cancel their pending batch or call item.value() directly, with and without nested synchronous calls. History invariants over before/body/after events: each batch at most once, never empty or already flushed, nothing flushed once the innermost awaited computation is complete, events exactly before,body,after (after also on failure); yield-only: flushed priority = max over the harness-computed candidate set; every item announced once inside its batch's window with the outcome its flush set; waiting tasks receive exactly that (reference interpreter fed with the flush log).",
       "Trusted: harness batch kinds and their log, reference interpreter. Ties may resolve either way (only a strictly greater pending priority is a violation).",
       "property-based testing: history invariants over flush events of generated programs + differential on received values",
       "DESIGN.md 5/C05")
 
 check("C03",
-      "Generated yield-only programs with tasks awaited by several parents, already-computed futures yielded again, orphans, empty structures and failures: monitors inside every generated task body assert 'never resumed with an uncomputed future', 'resumes = yields', 'no step after completion', 'orphans never start', 'fresh list/tuple siblings start in the order written'; after value() returns every task the reference says is transitively awaited must be computed. Deep chains (up to 1 500 awaiting tasks in the quick tier, 100 000 in the thorough tier, five yield patterns) must return the closed-form value with exactly one resume per yield. Termination is a bounded check (heartbeat watchdog, case re-run alone before a hang is reported).",
+      "Generated programs (yield-only, and a second campaign with synchronous re-entry) with tasks awaited by several parents, already-computed futures and the same object yielded again, orphans, empty structures and failures: monitors inside every generated task body assert 'never resumed with an uncomputed future', 'resumes = yields', 'no step after completion', 'orphans never start', 'fresh list/tuple siblings start in the order written'; after value() returns every task the reference says is transitively awaited must be computed. Deep chains (up to 1 500 awaiting tasks in the quick tier, 100 000 in the thorough tier, five yield patterns) must return the closed-form value with exactly one resume per yield. Termination is a bounded check (heartbeat watchdog, case re-run alone before a hang is reported).",
       "Trusted: the monitors in harness/e1/engine.py; liveness is bounded by VERIF_STALL_S (120 s against milliseconds per case).",
       "property-based testing with in-body runtime monitors over generated DAG programs + enumerated deep-chain scalability cases + watchdog",
       "DESIGN.md 5/C03")
@@ -48,18 +48,18 @@ check("C07",
       "DESIGN.md 5/C07")
 
 check("C08",
-      "Generated histories of 1-4 programs run one after another on the same thread without resetting the scheduler; every program has arbitrary failure points (task steps, items, raising and hard-failing flushes, failing lazy futures, contexts whose pause/resume raise, NonAsyncContext, MAX_TASK_STACK_SIZE lowered below the program's need) and nested synchronous re-entry. Inside bodies get_active_task() must be the running task at every statement and after each nested synchronous call; after each computation get_active_task() is None, the scheduler retains no task, str(scheduler) works, and a fixed canary computation (own batch kind, context, nested structure) produces exactly the trace it produces on a fresh scheduler.",
+      "Generated histories of 1-4 programs run one after another on the same thread without resetting the scheduler; every program has arbitrary failure points (task steps, items, raising and hard-failing flushes, failing lazy futures, contexts whose pause/resume raise, NonAsyncContext, MAX_TASK_STACK_SIZE lowered below the program's need) and nested synchronous re-entry. Inside bodies get_active_task() must be the running task at every statement and after each nested synchronous call; after each computation get_active_task() is None, the scheduler retains no task, str(scheduler) works, and a fixed canary computation (own batch kind, context, nested structure) produces exactly the trace it produces on a fresh scheduler, without flushing anything foreign (after a runaway recursion in a yield-only program the harness leaves the dead computation's batches alone, because asynq resets the scheduler itself there).",
       "Trusted: the canary's fresh-scheduler trace (recorded in the same process); leftover *batches* are cancelled by the harness between computations (the statement speaks of tasks). The in-body monitor is not consulted under a lowered stack limit.",
       "model-based history testing: Hypothesis-generated sequences of fault-injected programs against a 'fresh scheduler' canary oracle + state invariants after every step",
       "DESIGN.md 5/C08")
 check("C20",
-      "Tie-free generated programs (synchronous re-entry incl. the re-entry comb shape, failures, several batch kinds, DebugBatchItem, contexts) are run under default options and then under every single boolean debug option, all-on, and generated subsets (thorough: all pairs with the three options that touch scheduling paths), with SCHEDULER_STATE_DUMP_INTERVAL=0 so dump code executes and a harness clock stepping 1 us .. 1e11 us per reading, on both builds. Metamorphic oracle: outcome, every transcript, flush compositions and the context event log must be identical to the default-options run.",
+      "Tie-free generated programs (synchronous re-entry incl. the re-entry comb shape and direct item.value() calls, failures, several batch kinds, DebugBatchItem, contexts) are run under default options and then under every single boolean debug option, all-on, and generated subsets (thorough: all pairs with the three options that touch scheduling paths), with SCHEDULER_STATE_DUMP_INTERVAL=0 so dump code executes and a harness clock stepping 1 us .. 1e11 us per reading, on both builds. Metamorphic oracle: outcome, every transcript, flush compositions and the context event log must be identical to the default-options run.",
       "Trusted: tie-freeness of generated programs (distinct constant priority per kind), the harness clock replacing asynq.scheduler.utime. Diagnostic text is only required to be produced without raising.",
       "metamorphic property-based testing: same generated program under enumerated option configurations and generated clock magnitudes must yield the identical observable trace",
       "DESIGN.md 5/C20")
 
 check("C10",
-      "Generated operation sequences (value, error, call, is_computed, set_value, set_error, reset_unsafe, subscribe with well-behaved or raising callbacks) on each of 12 future kinds (Future with returning/raising provider, ConstFuture, ErrorFuture, AsyncTask returning/raising/blocking on a batch, batches with succeeding/failing flush, their items, DebugBatchItem) are executed against the real object and an explicit three-state reference model; every return value / exception, the stored outcome after rejected set_* calls, the number of runs of the underlying computation, and the set of subscribers notified per completion (each exactly once, after the outcome is visible, even if another raises) are compared after every step.",
+      "Generated operation sequences (value, error, call, is_computed, set_value, set_error, reset_unsafe, subscribe with well-behaved or raising callbacks) on each of 14 future kinds (Future with returning/raising provider, ConstFuture, ErrorFuture, AsyncTask returning/raising/blocking on a batch, an AsyncTask that is suspended mid-body -- with or without clean-up code that fails when its generator is closed -- operated on by a sibling task, batches with succeeding/failing flush, their items, DebugBatchItem) are executed against the real object and an explicit three-state reference model; every return value / exception, the stored outcome after rejected set_* calls, the number of runs of the underlying computation, and the set of subscribers notified per completion (each exactly once, after the outcome is visible, even if another raises) are compared after every step.",
       "Trusted: the reference model in harness/props/c10.py (soundness notes encoded: error() on a pending raising lazy Future propagates once; sinking hooks of Const/ErrorFuture; natural recomputation after reset_unsafe only for Future).",
       "model-based testing: generated operation histories against an explicit reference state machine (stateful PBT, shrinkable op lists)",
       "DESIGN.md 5/C10")
@@ -70,7 +70,7 @@ check("C11",
       "DESIGN.md 5/C11")
 
 check("C12",
-      "Two generators of call/dirty/completion interleavings against a reference in-flight table: (timed) histories executed inside one computation on a round clock -- caller tasks wait w rounds, then call key k of a deduplicated function / method on instance 1 or 2 / static method with a positional / keyword / explicit-default spelling, or call dirty(k); bodies last r(k) rounds and optionally fail; (toplevel) histories of t = f.asynq(k), t.value(), dirty(k) outside any task. Oracle: a call returns the identical task object iff an entry for the normalised key exists, was not dirtied and is not complete; body-run counters per key; every sharer receives the same value/error; different keys, functions and instances never share.",
+      "Two generators of call/dirty/completion interleavings against a reference in-flight table: (timed) histories executed inside one computation on a round clock -- caller tasks wait w rounds, then call key k of a deduplicated function / method on instance 1 or 2 / static method with a positional / keyword / explicit-default spelling, or call dirty(k); bodies last r(k) rounds, optionally fail and optionally re-enter themselves once with the same key; the two key values are -1 and -2 (equal hashes); (toplevel) histories of t = f.asynq(k), t.value(), dirty(k) outside any task. Oracle: a call returns the identical task object iff an entry for the normalised key exists, was not dirtied and is not complete; body-run counters per key; every sharer receives the same value/error; different keys, functions and instances never share.",
       "Trusted: the in-flight table model. When a call and the completion of the in-flight task fall in the same round the model accepts both outcomes (counted as ties).",
       "model-based testing of generated timed histories (deterministic round clock) and top-level operation histories against a reference table",
       "DESIGN.md 5/C12")
@@ -91,18 +91,18 @@ check("C17",
       "DESIGN.md 5/C17")
 
 check("C09",
-      "The finite matrix decorator {asynq, asynq pure, async_proxy, asynq+sync_fn, async_proxy+sync_fn, make_async_decorator, deduplicate, aretry, alru_cache, acached_per_instance} x binding {function, via instance, via class, via subclass instance, classmethod, staticmethod} x signature {(x), (x, y=10), (x, *, z=20), (x, y=10, *, z=20)} x body {plain, generator with child yield, batch-blocking, raising} is built from generated source and enumerated exhaustively (every cell, two spellings), and Hypothesis additionally draws cells with generated argument values and positional/keyword/default spellings. Oracle: the undecorated body applied to the explicitly bound receiver and normalised arguments; sync call, .asynq().value(), yield from a task, async_call (both forms), get_async_fn(f)(...), get_async_or_sync_fn(f)(...) must all equal it (with sync_fn the sync call equals sync_fn's outcome); is_async_fn / is_pure_async_fn / has_async_fn must equal the cell's ground truth. One open known finding (F1, KNOWN_FINDINGS.txt).",
+      "The finite matrix decorator {asynq, asynq pure, async_proxy, asynq+sync_fn, async_proxy+sync_fn, make_async_decorator, deduplicate, aretry, alru_cache, acached_per_instance} x binding {function, via instance, via class, via subclass instance, classmethod, staticmethod} x signature {(x), (x, y=10), (x, *, z=20), (x, y=10, *, z=20)} x body {plain, generator with child yield, batch-blocking, raising} is built from generated source and enumerated exhaustively (every cell, two spellings, plus an instance whose __bool__ is False for the instance bindings; another instance of the same class always touches the attribute first), and Hypothesis additionally draws cells with generated argument values and positional/keyword/default spellings. Oracle: the undecorated body applied to the explicitly bound receiver and normalised arguments; sync call, .asynq().value(), yield from a task, async_call (both forms), get_async_fn(f)(...), get_async_or_sync_fn(f)(...) must all equal it (with sync_fn the sync call equals sync_fn's outcome); is_async_fn / is_pure_async_fn / has_async_fn must equal the cell's ground truth. One open known finding (F1, KNOWN_FINDINGS.txt).",
       "Trusted: the generated source templates and the expected-outcome formula in harness/props/c09.py. Function-style wrappers are exercised on functions and instance methods only.",
       "exhaustive enumeration of a finite calling-convention matrix + property-based testing of argument spellings, differential against direct evaluation of the body",
       "DESIGN.md 5/C09")
 check("C15",
-      "Batch-free generated programs (trees of tasks, constant futures, None, functions with an explicit asyncio_fn, nested/empty tuple-list-dict structures, raises and try/except at any level), entered through a function, a bound method or an async_proxy: the same generated body is run by fn() under the asynq scheduler and by a driver coroutine awaiting fn.asyncio() under asyncio.run; both outcomes and every task's transcript must equal the sequential reference (a plain synchronous call of an @asynq() function inside a body must succeed under asynq and raise RuntimeError under asyncio); a monitor asserts that every task yielded alongside has finished when a failure is delivered at a yield; is_asyncio_mode() must be off before and after (also on failure), on inside bodies under asyncio and off under asynq.",
+      "Batch-free generated programs (trees of tasks, constant futures, None, functions with an explicit asyncio_fn, nested/empty tuple-list-dict structures, raises and try/except at any level), entered through a function, a bound method or an async_proxy: the same generated body is run by fn() under the asynq scheduler and by a driver coroutine awaiting fn.asyncio() under asyncio.run; both outcomes and every task's transcript must equal the sequential reference (a plain synchronous call of an @asynq() function inside a body must succeed under asynq and raise RuntimeError under asyncio); a monitor asserts that every task yielded alongside has finished when a failure is delivered at a yield; is_asyncio_mode() must be off before and after (also on failure), on inside bodies under asyncio and off under asynq; the same driver coroutine then awaits a plain (non-generator) function that returns or raises and probes the flag and a synchronous call again.",
       "Trusted: reference interpreter; the driver coroutine observing the contextvar in the same context. ErrorFuture / lazy Future / batch items / result() are outside the property's stated domain and not generated.",
       "differential property-based testing: one generated body under two engines (asynq scheduler vs asyncio event loop) and a sequential reference",
       "DESIGN.md 5/C15")
 
 check("C16",
-      "2-5 (quick) / 2-16 (thorough) generated tie-free programs (harness batch kinds, DebugBatchItem, contexts, failures, synchronous re-entry) plus a deduplicated function called with the same arguments in every thread, with COLLECT_PERF_STATS on, run on as many threads: (turnstile) every body statement and flush body is a sync point and Hypothesis draws the sequence of thread turns, so the interleaving is deterministic, replayable and shrinkable; (free-running) switch interval 1e-6 s, barrier start, repeated runs. Oracle per thread: outcome, transcripts, statement sequence, flush compositions, context events, profiler entries (count, counters, names) and deduplicated-body runs equal the same program run alone on a fresh thread; scheduler objects pairwise distinct; the active task is always one of the thread's own; a DebugBatchItem's batch holds only own-thread items.",
+      "2-5 (quick) / 2-16 (thorough) generated tie-free programs (harness batch kinds, DebugBatchItem, contexts, failures, synchronous re-entry) plus a deduplicated function called with the same arguments in every thread (even threads hold an in-flight task across sync points and ask for it again, odd threads call dirty() for the same key in between), with COLLECT_PERF_STATS on and no reset of any per-thread state by the workload, run on as many threads: (turnstile) every body statement and flush body is a sync point and Hypothesis draws the sequence of thread turns, so the interleaving is deterministic, replayable and shrinkable; (free-running) switch interval 1e-6 s, barrier start, repeated runs. Oracle per thread: outcome, transcripts, statement sequence, flush compositions, context events, profiler entries (count, counters, names) and deduplicated-body runs equal the same program run alone on a fresh thread; scheduler objects pairwise distinct; the active task is always one of the thread's own; a DebugBatchItem's batch holds only own-thread items.",
       "Trusted: tie-freeness of the programs; the oracle is schedule independent. OS preemption points inside asynq are only sampled (free-running mode).",
       "property-based testing with a harness-owned (generated) thread schedule + free-running stress; metamorphic oracle 'concurrent run = solo run'",
       "DESIGN.md 5/C16")
@@ -112,7 +112,7 @@ check("C18",
       "property-based testing of generated call chains (real source files) + differential against a reference rewriter + exhaustive enumeration of an object-state x rendering matrix",
       "DESIGN.md 5/C18")
 check("C19",
-      "The matrix target {module function, instance method, classmethod, staticmethod, plain attribute} x replacement {default mock, plain function, lambda, bound method, callable object, new_callable mock factory, new_callable callable class, non-callable} x activation {with, function decorator, class decorator, start/stop, stopall} x exit {normal, exception} x {patch by string, patch.object} is enumerated exhaustively; Hypothesis draws nested/sequential patch histories on one target with generated arguments. Oracle inside: sync call, .asynq().value(), yield from a task and asyncio.run(.asyncio()) each reach the replacement exactly once with exactly the given arguments (preceded by the instance only where Python's descriptor protocol binds it) and return its result; a non-callable is installed as is. After every exit path and after each level of nesting unwinds the owner's __dict__ entry is the previous object / finally the original object, which behaves as before.",
+      "The matrix target {module function, instance method, classmethod, staticmethod, plain attribute} x replacement {default mock, plain function, lambda, bound method, callable object, new_callable mock factory, new_callable callable class, non-callable} x activation {with, function decorator, class decorator, start/stop, stopall} x exit {normal, exception} x {patch by string, patch.object} is enumerated exhaustively; Hypothesis draws nested/sequential patch histories (start, stop, stopall, calls) on one target with generated arguments. Oracle inside: sync call, .asynq().value(), yield from a task and asyncio.run(.asyncio()) each reach the replacement exactly once with exactly the given arguments (preceded by the instance only where Python's descriptor protocol binds it) and return its result; a non-callable is installed as is. After every exit path and after each level of nesting unwinds the owner's __dict__ entry is the previous object / finally the original object, which behaves as before.",
       "Trusted: the expected-arguments rule (descriptor protocol) in harness/props/c19.py. new_callable is exercised as documented by the standard library.",
       "exhaustive enumeration of a finite patching matrix + model-based nesting histories",
       "DESIGN.md 5/C19")
